@@ -908,7 +908,10 @@ spifconf_parse_line(FILE * fp, spif_charptr_t buff)
       case '\0':
           SPIFCONF_PARSE_RET();
       case '%':
-          if (!BEG_STRCASECMP(spiftool_get_pword(1, buff + 1), "include ")) {
+          if (!spiftool_get_pword(1, buff + 1)) {
+              /* A lone % names no directive. */
+              SPIFCONF_PARSE_RET();
+          } else if (!BEG_STRCASECMP(spiftool_get_pword(1, buff + 1), "include ")) {
               spif_charptr_t path;
               FILE *fp;
 
